@@ -46,6 +46,16 @@ pub struct Node {
 	pub yield_hook: Mutex<Option<YieldHook>>,
 	/// log of call names since last reset (for diagnostics / enumeration)
 	pub call_log: Mutex<Vec<&'static str>>,
+	/// when set, tip / output / kernel queries are answered from this table instead of
+	/// the chain (C01: wallets whose outputs are written directly)
+	pub stub: Mutex<Option<Stub>>,
+}
+
+#[derive(Clone, Default)]
+pub struct Stub {
+	pub height: u64,
+	/// None = every queried output is reported unspent at height 1
+	pub unspent: Option<HashMap<pedersen::Commitment, (u64, u64)>>,
 }
 
 impl Node {
@@ -70,6 +80,7 @@ impl Node {
 			page: AtomicU64::new(0),
 			yield_hook: Mutex::new(None),
 			call_log: Mutex::new(vec![]),
+			stub: Mutex::new(None),
 		})
 	}
 
@@ -255,6 +266,9 @@ impl NodeClient for DirectClient {
 
 	fn get_chain_tip(&self) -> Result<(u64, String), libwallet::Error> {
 		self.node.enter("get_chain_tip")?;
+		if let Some(st) = self.node.stub.lock().unwrap().as_ref() {
+			return Ok((st.height, format!("{:064x}", st.height)));
+		}
 		let head = self.node.chain.head().unwrap();
 		Ok((head.height, head.last_block_h.to_hex()))
 	}
@@ -264,6 +278,22 @@ impl NodeClient for DirectClient {
 		wallet_outputs: Vec<pedersen::Commitment>,
 	) -> Result<HashMap<pedersen::Commitment, (String, u64, u64)>, libwallet::Error> {
 		self.node.enter("get_outputs_from_node")?;
+		if let Some(st) = self.node.stub.lock().unwrap().as_ref() {
+			let mut res = HashMap::new();
+			for commit in wallet_outputs {
+				match &st.unspent {
+					None => {
+						res.insert(commit, (commit.as_ref().to_hex(), 1, 1));
+					}
+					Some(m) => {
+						if let Some((h, i)) = m.get(&commit) {
+							res.insert(commit, (commit.as_ref().to_hex(), *h, *i));
+						}
+					}
+				}
+			}
+			return Ok(res);
+		}
 		let chain = &self.node.chain;
 		let mut res = HashMap::new();
 		for commit in wallet_outputs {
@@ -283,6 +313,9 @@ impl NodeClient for DirectClient {
 		max_height: Option<u64>,
 	) -> Result<Option<(TxKernel, u64, u64)>, libwallet::Error> {
 		self.node.enter("get_kernel")?;
+		if self.node.stub.lock().unwrap().is_some() {
+			return Ok(None);
+		}
 		// the wire format of the test proxy (and the HTTP API) maps 0 to "no bound"
 		let min = match min_height {
 			Some(0) | None => None,
